@@ -1,5 +1,5 @@
-(* M1: argument validation of publish() / subscribe() / unsubscribe() (client.py 1754-1768,
-   1980-2033, 2060-2075, 3319-3337, 468-483). Model only, no proofs.
+(* M1: argument validation of publish() / subscribe() / unsubscribe() (client.py 1754-1772,
+   1980-2037, 2064-2088, 3330-3350, 468-483). Model only, no proofs.
    Strings are the UTF-8 byte strings (`list Z`) the code computes with `.encode('utf-8')`. *)
 From PahoV Require Import Base.Prelude.
 
@@ -46,10 +46,16 @@ Inductive pkind := PStr | PBytes | PBytearray | PInt | PFloat | PNone | POther.
 Definition payload_supported (k : pkind) : bool :=
   match k with POther => false | _ => true end.
 
-(* publish(topic, payload, qos): the checks of client.py 1754-1768 in source order.
-   plen = len(_encode_payload(payload)) (irrelevant for POther). Ok 0 = all checks passed,
-   i.e. the call goes on to _mid_generate(). *)
-Definition publish_args_check (v : version) (topic : list Z) (qos : Z) (k : pkind) (plen : Z) : res Z :=
+(* remaining_length = 2 + len(topic_bytes) + len(local_payload) + (2 if qos > 0 else 0)
+   if self._protocol == MQTTv5: remaining_length += 1 if properties is None else len(properties.pack()) *)
+Definition publish_remaining_length (v : version) (topic : list Z) (qos plen proplen : Z) : Z :=
+  2 + blen topic + plen + (if qos >? 0 then 2 else 0) + (if is_v5 v then proplen else 0).
+
+(* publish(topic, payload, qos, properties): the checks of client.py 1754-1772 in source order.
+   plen = len(_encode_payload(payload)) (irrelevant for POther); proplen = 1 when properties is None,
+   else len(properties.pack()) (irrelevant for MQTT 3.x). Ok 0 = all checks passed, i.e. the call goes
+   on to _mid_generate(). *)
+Definition publish_args_check (v : version) (topic : list Z) (qos : Z) (k : pkind) (plen proplen : Z) : res Z :=
   if negb (is_v5 v) && (blen topic =? 0) then Raise 1                (* 'Invalid topic.' *)
   else match topic_check topic with
        | Raise e => Raise e
@@ -57,7 +63,8 @@ Definition publish_args_check (v : version) (topic : list Z) (qos : Z) (k : pkin
        | Ok _ =>
            if (qos <? 0) || (qos >? 2) then Raise 1                   (* 'Invalid QoS level.' *)
            else if negb (payload_supported k) then Raise 2            (* _encode_payload TypeError *)
-           else if plen >? 268435455 then Raise 1                     (* 'Payload too large.' *)
+           else if publish_remaining_length v topic qos plen proplen >? 268435455
+                then Raise 1                                          (* 'Payload too large.' *)
            else Ok 0
        end.
 
@@ -210,6 +217,19 @@ Definition subscribe_norm (v : version) (a : sub_arg) : res (list (filter * opts
       end
   end.
 
+(* _send_subscribe (connected client only), before _mid_generate():
+     remaining_length = 2 [+ len(packed properties) for v5]; for t, _ in topics: remaining_length += 2 + len(t) + 1
+     _pack_remaining_length raises ValueError('Packet too large.') above 268435455 *)
+Definition subscribe_remaining_length (v : version) (proplen : Z) (l : list (filter * opts)) : Z :=
+  fold_left (fun acc p => acc + (2 + blen (fst p) + 1)) l (2 + (if is_v5 v then proplen else 0)).
+
+(* subscribe() on a connected client up to the point where the packet is queued *)
+Definition subscribe_connected (v : version) (proplen : Z) (a : sub_arg) : res (list (filter * opts)) :=
+  match subscribe_norm v a with
+  | Ok l => if subscribe_remaining_length v proplen l >? 268435455 then Raise 1 else Ok l
+  | other => other
+  end.
+
 (* ------------------------------------------------------------------ unsubscribe() *)
 
 Inductive unsub_arg :=
@@ -245,6 +265,7 @@ Definition unsubscribe_norm (a : unsub_arg) : res (list filter) :=
   | UItem IOther => Raise 1
   | UItem (IStr s) => if blen s =? 0 then Raise 1 else Ok [s]
   | UItem (IBytes s) => if blen s =? 0 then Raise 1 else Raise 8
+  | UList [] => Raise 1                                  (* 'Empty topic list' *)
   | UList l => unsub_elems l
   end.
 
